@@ -80,6 +80,12 @@ struct CpcUnionFam {
   static std::string cfg_str(const Cfg& c) { return ccfg_str(c); }
   static void construct(void* mem, const Cfg& c, Arena* a, Rng& r) { new (mem) CpcU(r.coin() ? c.lg_k1 : c.lg_k2, c.seed, A(a)); }
   static void mutate(Obj& o, const Cfg& c, Rng& r, Arena* scratch) {
+    if (r.chance(0.08)) {   // feed the union its own result: safety only
+      Cpc res = o.get_result();
+      if (r.coin()) o.update(res); else o.update(std::move(res));
+      xcount("cpc_union.update_with_own_result");
+      return;
+    }
     Cpc s(static_cast<uint8_t>(r.chance(0.6) ? (r.coin() ? c.lg_k1 : c.lg_k2) : r.range(4, 11)), c.seed, A(scratch));
     feed(s, c, r);
     if (r.coin()) { o.update(s); xcount("cpc_union.merge_ref"); }
